@@ -17,6 +17,7 @@ var Scenarios = map[string]func() *Scenario{
 	"C14": C14Scenario,
 	"C15": C15Scenario,
 	"C16": C16Scenario,
+	"C17": C17Scenario,
 	"C18": C18Scenario,
 	"C19": C19Scenario,
 	"C20": C20Scenario,
